@@ -88,6 +88,46 @@ def _mixins_loops(m):
     ]
 
 
+def effective_readers(ctx):
+    """-> (reader, names): the method of the function class that merges the mixins' tables with the own one (it
+    iterates `self.mixins` in whatever form - a loop, a comprehension, a generator handed to chain() -, reads
+    `self._defns`, returns a value, writes nothing of the receiver), and the names under which the merged view can be
+    read: the reader itself and the methods / properties that only return a call of it."""
+    from ..effects import func_writes
+
+    oc = A.function_class(ctx.repo)
+    readers = []
+    for m in oc.methods.values():
+        if m.name == "__init__":
+            continue
+        rv = recv_name(m)
+        iterates = any(
+            (isinstance(n, ast.For) and is_self_attr(iter_base(n.iter), "mixins", selfname=rv)) or (isinstance(n, ast.comprehension) and is_self_attr(iter_base(n.iter), "mixins", selfname=rv))
+            for n in ast.walk(m.node)
+        )
+        if iterates and any(is_self_attr(x, "_defns", selfname=rv) for x in ast.walk(m.node)) and any(isinstance(x, ast.Return) and x.value is not None for x in ast.walk(m.node)) and not func_writes(m.node, rv):
+            readers.append(m)
+    if len(readers) != 1:
+        raise AnalysisError(f"effective-table reader not found ({[m.name for m in readers]})")
+    rd = readers[0]
+    names = {rd.name}
+    changed = True
+    while changed:
+        changed = False
+        for m in oc.methods.values():
+            if m.name in names:
+                continue
+            rv = recv_name(m)
+            body = [st for st in m.node.body if not (isinstance(st, ast.Expr) and isinstance(st.value, ast.Constant))]
+            if len(body) == 1 and isinstance(body[0], ast.Return) and body[0].value is not None:
+                v = body[0].value
+                v = v.func if isinstance(v, ast.Call) and not v.args and not v.keywords else v
+                if is_self_attr(v, selfname=rv) and v.attr in names:
+                    names.add(m.name)
+                    changed = True
+    return rd, names
+
+
 def _mechanism_or_violation(ctx, getter, construct, text, detail):
     """An anchor that vanished because the mechanism itself was deleted is a violation of the rule that needs it,
     not an analysis error."""
@@ -110,16 +150,14 @@ def r2_lock_closure(ctx):
     build = A.build_method(repo)
     ctx.touch(lock, build)
     # read closure: the effective table recurses through mixins
-    readers = [
-        m
-        for m in oc.methods.values()
-        if any(
-            isinstance(n, ast.Attribute) and n.attr == m.name and isinstance(n.value, ast.Name) and n.value.id == lp.target.id
-            for lp in _mixins_loops(m)
-            for n in ast.walk(lp)
-        )
-        and any(is_self_attr(n, "_defns", selfname=recv_name(m)) for n in ast.walk(m.node))
-    ]
+    rd, view_names = effective_readers(ctx)
+    rdv = recv_name(rd)
+    targets = set()
+    for n in ast.walk(rd.node):
+        if isinstance(n, (ast.For, ast.comprehension)) and is_self_attr(iter_base(n.iter), "mixins", selfname=rdv) and isinstance(n.target, ast.Name):
+            targets.add(n.target.id)
+    recursive = any(isinstance(n, ast.Attribute) and n.attr in view_names and isinstance(n.value, ast.Name) and n.value.id in targets for n in ast.walk(rd.node))
+    readers = [rd] if recursive else []
     ctx.require(readers, "no method reads the effective method table recursively through mixins")
     ctx.touch(*readers)
     # (a) lock recurses over every mixin, unconditionally
@@ -466,13 +504,7 @@ def r4_child_writes_nothing_of_parent(ctx):
         )
         n_sites += 1
     # the overlay applies the own table last
-    rd = None
-    for m in oc.methods.values():
-        if _mixins_loops(m) and any(is_self_attr(x, "_defns", selfname=recv_name(m)) for x in ast.walk(m.node)) and m.name != "__init__":
-            if any(isinstance(x, ast.Return) for x in ast.walk(m.node)):
-                rd = m
-                break
-    ctx.require(rd is not None, "effective-table reader not found")
+    rd, _ = effective_readers(ctx)
     ctx.touch(rd)
     merged_view(ctx, rd)
 
@@ -644,11 +676,7 @@ def r6_writers_read_own_table_only(ctx):
     copies from there becomes the child's own and survives the parent's later changes."""
     oc = A.function_class(ctx.repo)
     # the effective-table reader(s): properties / methods that merge mixins' tables with the own one
-    eff = set()
-    for m in oc.methods.values():
-        if _mixins_loops(m) and any(is_self_attr(x, "_defns", selfname=recv_name(m)) for x in ast.walk(m.node)) and any(isinstance(x, ast.Return) for x in ast.walk(m.node)):
-            eff.add(m.name)
-    ctx.require(eff, "effective-table reader not found")
+    _, eff = effective_readers(ctx)
     seen = set()
     for m, w, st in method_table_writers(ctx):
         if w.attr != "_defns" or m.key in seen:
